@@ -185,4 +185,13 @@ PROPS = {
         "what": "pass / redirect Location / served file identity (+ header presence) / 304 per request vs model; spec: served files are inside the directory, only GET/HEAD under the prefix boundary are answered, redirects end in '/'.",
         "assumes": ["URL.Path starts with '/'", "no symbolic links in the served tree"],
     },
+    "C17": {
+        "n_quick": 4000, "n_thorough": 100000,
+        "technique": "Coq proof of the glue (status, content type in force when the status line is sent, body) with the encoders as oracles + correspondence decoding the bodies with the standard decoders",
+        "level_text": "proof (partial): C17_status_ct_body (for every kind, charset, status, payload the response carries exactly that status, the matching Content-Type with the configured charset already set when the status line goes out, and exactly the payload) and C17_available (Render resolves in the request scope after the Renderer middleware, via the C04 model); that encoding/json|xml produce a body decoding back to the value with the configured indentation is checked by the correspondence only (Unmarshal + DeepEqual, byte comparison with the standard encoder's own output)",
+        "level_note": "trusts Coq kernel, extraction, glue; encoding/json, encoding/xml are oracles; values are instances of one struct shape with strings (incl. markup characters, non-ASCII, newlines, NUL for JSON), ints, bools, string slices, an optional nested struct with a float and an attribute",
+        "rule": "1-3 render calls per instance (JSON/XML 50%, Binary random bytes, PlainText), 8 status codes, charset default/utf-8/iso-8859-1/gbk, JSON and XML indent none/2 spaces/tab; a third of the cases serve the second request as a sub-request issued by the first request's handler before it renders (same Renderer, overlapping requests); 8% put a handler asking for Render before the Renderer. Non-trivial: an encoded value or an overlapping sub-request; distinct by input.",
+        "what": "per response: status, Content-Type as it was when the status line was sent, body faithful (decodes to the value and equals the standard encoder's output / verbatim), number of writes; model vs implementation.",
+        "assumes": ["values are encodable"],
+    },
 }
